@@ -43,7 +43,11 @@ func sessErrKind(err error) string {
 }
 
 func (d *sdrv) exec(q string) string {
-	d.cfg.tr.Op("exec %s", hxs(q))
+	if ann := runeAnnotations(q); ann != "" {
+		d.cfg.tr.Op("exec %s %s", hxs(q), ann) // (how the scanner decodes every rune outside ASCII: unquoted names)
+	} else {
+		d.cfg.tr.Op("exec %s", hxs(q))
+	}
 	res := ""
 	wdog.Run(func() {
 		pm := hx.Catch(func() {
@@ -450,6 +454,13 @@ func runSess(cfg *config) {
 			d.exec("SELECT * FROM t1")
 		}, nil)
 	}
+	// scripted: database names outside ASCII written WITHOUT quotes (identifiers of letters)
+	run(func(d *sdrv, r *hx.Rng) {
+		for _, q := range []string{"CREATE DATABASE é", "USE é", "CREATE DATABASE É", "CREATE TABLE größe (a int)", "INSERT INTO größe VALUES (1)", "USE É",
+			"SELECT * FROM größe", "SHOW DATABASES", "CREATE DATABASE ÇA", "USE ça", "CREATE TABLE t1 (a int)", "USE Ça", "INSERT INTO t1 VALUES (2)"} {
+			d.exec(q)
+		}
+	}, nil)
 	// scripted: names that are not one plain directory name - a path separator, the directory itself
 	// or its parent, a name no file system holds - are refused and change nothing
 	run(func(d *sdrv, r *hx.Rng) {
